@@ -11,6 +11,7 @@ def run(tree, rep, tier):
     grammar(rep, T, files, rules=("T2",))
     T4_edges(rep, T, files)
     flow = Flow(tree)
+    flow.describe(rep)
     K1_loader(rep, flow, T, tier)
     G3_graphs(rep, flow)
     P_rules(rep, flow, which=("P1", "P2", "P3"))
